@@ -23,7 +23,7 @@ def glob(pat, s):
 # running the implementation
 # ------------------------------------------------------------------------------------------
 
-def _run_chunk(chunk, timeout):
+def _run_chunk(chunk, timeout, _depth=0):
     inp = "".join(json.dumps({k: v for k, v in s.items() if not k.startswith("_")}) + "\n" for s in chunk)
     p = vlib.harness(["pubsub"], input=inp, timeout=timeout)
     out = {}
@@ -33,7 +33,34 @@ def _run_chunk(chunk, timeout):
             r = json.loads(line)
             out[r["id"]] = r
     if p.returncode != 0:
-        raise vlib.CheckError("pubsub harness failed rc=%d: %s" % (p.returncode, p.stderr[-2000:]))
+        missing = [s for s in chunk if s["id"] not in out]
+        crashed = "panic:" in p.stderr or "fatal error:" in p.stderr
+        if not crashed:
+            if "address already in use" in p.stderr and missing and _depth < 3:
+                # a free port found for a member was taken by another process before the member bound it: environment
+                out.update(_run_chunk(missing, timeout, _depth + 1))
+                return out
+            raise vlib.CheckError("pubsub harness failed rc=%d: %s" % (p.returncode, p.stderr[-2000:]))
+        # The process (harness + the members it hosts) died inside olric code. A subscribed connection is served by its own
+        # goroutine, so the script that triggered the crash is the first one without a result or the last one with a result:
+        # each is run again alone to find out which.
+        k = chunk.index(missing[0]) if missing else len(chunk)
+        cands = ([chunk[k]] if k < len(chunk) else []) + ([chunk[k - 1]] if k > 0 else [])
+        culprit = None
+        for c in cands:
+            one = json.dumps({kk: v for kk, v in c.items() if not kk.startswith("_")}) + "\n"
+            q = vlib.harness(["pubsub"], input=one, timeout=timeout)
+            if q.returncode != 0 and ("panic:" in q.stderr or "fatal error:" in q.stderr):
+                e = q.stderr
+                culprit = c
+                tail = e[e.find("panic:") if "panic:" in e else e.find("fatal error:"):][:1500]
+                out[c["id"]] = {"id": c["id"], "crash": tail, "obs": []}
+                break
+        if culprit is None:
+            raise vlib.CheckError("pubsub harness died (rc=%d) and no single script reproduces it: %s" % (p.returncode, p.stderr[-1500:]))
+        rest = [s2 for s2 in missing if s2["id"] != culprit["id"]]
+        if rest:
+            out.update(_run_chunk(rest, timeout))
     return out
 
 
@@ -73,6 +100,8 @@ def expected_deliveries(subs, conn_member, nconns, ch, payload):
 def predicate(sc, res):
     """None when the trace satisfies C14, else (step, message).  A wrong count in a (P)SUBSCRIBE confirmation is
     reported only when nothing the property text states outright fails later in the same trace."""
+    if res.get("crash"):
+        return (0, "the member process died while it served this script: " + res["crash"].splitlines()[0][:200])
     soft = []
     hard = _predicate(sc, res, soft)
     return hard or (soft[0] if soft else None)
@@ -216,7 +245,7 @@ def classify(msg):
              ("punsub", "repl", "unsubscribe-reply"), ("unsub", "repl", "unsubscribe-reply"),
              ("psub replied", "", "subscribe-reply"), ("sub replied", "", "subscribe-reply"),
              ("did not release", "", "disconnect-cleanup"), ("still held", "", "disconnect-cleanup"),
-             ("did not complete", "", "hang"), ("no observation", "", "hang")]
+             ("did not complete", "", "hang"), ("no observation", "", "hang"), ("member process died", "", "crash")]
     for a, b, k in table:
         if a in msg and b in msg:
             return {"kind": "pubsub", "what": k}
